@@ -79,7 +79,7 @@ impl RunSpec {
     pub fn plain(cfg: Cfg) -> RunSpec { RunSpec { cfg, fire_at: usize::MAX, primal: None, primal2: None, record: false } }
 }
 
-pub fn fuel_for(m: &dyn Model) -> usize { 1000 * (m.nb_paths_bound() + 1) * (m.nb_variables() + 1) }
+pub fn fuel_for(m: &dyn Model) -> usize { 100 * (m.nb_paths_bound() + 1) * (m.nb_variables() + 1) }
 
 macro_rules! seq_dispatch {
     ($cfg:expr, $f:ident, $($args:expr),*) => {
